@@ -5,6 +5,7 @@ CONSTANTS
  HandlerNames <- TS_HandlerNames
  FailCodes <- TS_FailCodes
  Fine = FALSE
+ FineCtls = {"tx", "prop", "cfg", "mast", "conn"}
  AllPaths <- PU_All
  GoParent <- PU_GoParent
  TextPrefix <- PU_TextPrefix
